@@ -24,6 +24,7 @@ NONTRIVIAL = {
     "c11p": lambda i: isinstance(i, dict) and len(i.get("arts") or []) > 1,
     "c10": lambda i: isinstance(i, dict) and len(i.get("arts") or []) > 1,
     "c12": lambda i: isinstance(i, dict) and len(i.get("arts") or []) > 1,
+    "c13": lambda i: isinstance(i, dict) and len(i.get("ops") or []) > 1 and len(i.get("mods") or []) > 0,
     "c15": lambda i: isinstance(i, dict) and len(i.get("name") or []) > 1,
 }
 
@@ -83,5 +84,12 @@ PROPS = {
         "rule": "exhaustive custom-artifact sequences up to length 4 (5 thorough) over {a, a overwrite, d/a, d/./a, d/e/../a overwrite, /abs/a, d/b overwrite} x permission bits x subsets of 4 pre-existing files on afero.MemMapFs; seeded random runs mixing custom templates, generator files, errors and post-processors; every path of the run and all its parents probed afterwards (kind, content, mode); non-trivial = at least 2 artifacts",
         "level_text": "THEOREMS PENDING (level exploration until proved): executable Lean model of writeFile over a finite-map file system compared with the real persister on MemMapFs; Phi_C12 = per-path declarative rule (first writer wins unless overwrite; creator's mode; post-processed content; parents exist; response unaffected) evaluated on every observed file system.",
         "level_note": "Trusted: afero MemMapFs semantics as modelled (normalizePath, create-or-truncate, chmod only on create, MkdirAll of all ancestors); domain excludes file/directory prefix conflicts (fail-stop on a real file system, C14's territory).",
+    },
+    "C13": {
+        "engines": [("c13", "main")],
+        "lean": ["PgsVerif.Props.C13"],
+        "rule": "every history over {AST(), Render()} up to length 4 (6 thorough) x 60 (120) random configurations (1 or 4 proto files, target subsets, 5 parameter strings, 3 mutator line-ups, 0-4 recording modules returning 0-3 legal artifacts and leaving context pushes unbalanced, optional post-processor / supported-features / bidirectional mode) + seeded random histories up to 8; effects observed through a counting reader, a decoding writer and recording modules logging through a recording debugger; non-trivial = at least 2 ops and 1 module",
+        "level_text": "Theorem C13_trace: for every configuration and every finite history of AST()/Render() calls the effect trace of the once-guarded workflow equals the declarative trace (input read once before anything else; on the first Render all InitContext in order then all Execute in order then one Write of persist(concat artifacts); nothing afterwards), by an invariant over the three Once flags; corollaries for 'rendering again does nothing'.",
+        "level_note": "Trusted: sync.Once modelled sequentially (the library is single-threaded); proto.Marshal/Unmarshal (response compared after decoding); the AST handed to modules is observed only through Targets()/Packages() keys and object identity (its content is C01's subject); persist is the C10 model.",
     },
 }
